@@ -168,6 +168,17 @@ func (s *Spec) resolve(c *Config, v ssa.Value) string {
 		if k, ok := c.locals[x]; ok {
 			return k
 		}
+	case *ssa.Call:
+		if k, ok := c.locals[x]; ok {
+			return k
+		}
+		if f := x.Call.StaticCallee(); f != nil && f.Pkg != nil {
+			if n := f.Pkg.Pkg.Path() + "." + f.Name(); n == "fmt.Errorf" || n == "errors.New" {
+				return "nonnil"
+			}
+		}
+	case *ssa.MakeInterface:
+		return s.resolve(c, x.X)
 	case *ssa.ChangeType:
 		return s.resolve(c, x.X)
 	case *ssa.Convert:
@@ -176,6 +187,12 @@ func (s *Spec) resolve(c *Config, v ssa.Value) string {
 		if x.Op == token.MUL {
 			if k, ok := c.locals[x]; ok {
 				return k
+			}
+			if al, ok := x.X.(*ssa.Alloc); ok { // spilled local (e.g. results of a function with defers)
+				if k, ok := c.locals[al]; ok {
+					return k
+				}
+				return Top
 			}
 			if name, tracked, _ := s.fieldOfAddr(x.X); tracked {
 				if k, ok := c.Fields[name]; ok {
@@ -215,7 +232,18 @@ func (s *Spec) Run(entry *ssa.Function, init map[string]string) []*Config {
 	for k, v := range init {
 		c.Fields[k] = v
 	}
-	return s.summary(entry, c, nil)
+	outs := s.summary(entry, c, nil)
+	var res []*Config
+	seen := map[string]bool{}
+	for _, o := range outs {
+		n := o.clone()
+		delete(n.Fields, "$ret")
+		if k := n.Key(); !seen[k] {
+			seen[k] = true
+			res = append(res, n)
+		}
+	}
+	return res
 }
 
 func (s *Spec) summary(f *ssa.Function, in *Config, params map[*ssa.Parameter]string) []*Config {
@@ -298,6 +326,9 @@ func (s *Spec) summary(f *ssa.Function, in *Config, params map[*ssa.Parameter]st
 			switch t := last.(type) {
 			case *ssa.Return:
 				o := cc.clone()
+				if len(t.Results) > 0 {
+					o.Fields["$ret"] = s.resolve(cc, t.Results[0])
+				}
 				o.locals = map[ssa.Value]string{}
 				outs[o.Key()] = o
 			case *ssa.If:
@@ -451,6 +482,16 @@ func (s *Spec) step(in ssa.Instruction, c *Config) []*Config {
 			}
 		}
 	case *ssa.Store:
+		if al, ok := x.Addr.(*ssa.Alloc); ok {
+			v := s.resolve(c, x.Val)
+			c = c.clone()
+			if v == Top {
+				delete(c.locals, al)
+			} else {
+				c.locals[al] = v
+			}
+			return []*Config{c}
+		}
 		name, tracked, isRecv := s.fieldOfAddr(x.Addr)
 		if !isRecv {
 			return []*Config{c}
@@ -458,6 +499,7 @@ func (s *Spec) step(in ssa.Instruction, c *Config) []*Config {
 		c = c.clone()
 		if tracked {
 			c.Fields[name] = s.resolve(c, x.Val)
+			c.Acts["set:"+name] = true
 		}
 		s.invalidate(c, name)
 		return []*Config{c}
@@ -491,6 +533,12 @@ func (s *Spec) step(in ssa.Instruction, c *Config) []*Config {
 				n.locals = map[ssa.Value]string{}
 				for k, v := range c.locals {
 					n.locals[k] = v
+				}
+				if rv, ok := n.Fields["$ret"]; ok {
+					delete(n.Fields, "$ret")
+					if cv, isVal := in.(ssa.Value); isVal && rv != Top {
+						n.locals[cv] = rv
+					}
 				}
 				res = append(res, n)
 			}
